@@ -130,6 +130,10 @@ def check(ctx, rep, cfg):
             rep.violation("NO-PANIC-ON-REFUSAL", "%s|%s|%s" % (inst, f.path, site.name),
                           "%s; call chain: %s" % (text, " -> ".join(chain)), loc=site.loc())
     rep.sample({"entries": [e.path for e in entries][:12], "n_entries": len(entries)})
+    # failure paths keep the handle whole: the storage record is never dropped by crate code (it would be
+    # wiped without unprotect and never unlocked) -- shared with C14
+    from .c14 import drop_discipline
+    drop_discipline(rep, prog, tag)
     # positive example: the rule must be able to see a sink at all (zero-expected-count rule)
     all_sinks = sum(len(io_sinks(f)) for f in prog.fns)
     rep.ob("SELF-TEST", "sink recogniser matches somewhere in the crate" + tag, all_sinks >= 3,
